@@ -3,7 +3,7 @@
 mkdir -p /tmp/thorough
 for id in "$@"; do
   t0=$(date +%s)
-  timeout 9000 /verif/check $id thorough > /tmp/thorough/$id.log 2>&1; rc=$?
+  VERIF_DEADLINE_S=${VERIF_DEADLINE_S:-1500} timeout 9000 /verif/check $id thorough > /tmp/thorough/$id.log 2>&1; rc=$?
   t1=$(date +%s)
   echo "$id exit=$rc wall=$((t1-t0))s $(grep -c '^KNOWN-FINDING' /tmp/thorough/$id.log) known $(grep -E '^(VIOLATION|INCONCLUSIVE)' /tmp/thorough/$id.log | head -2 | cut -c1-200 | tr '\n' ' ')" >> /tmp/thorough/summary.txt
 done
